@@ -145,6 +145,8 @@ func main() {
 			jobs = append(jobs, job{name: n, starts: 1, kind: "mate", tolB: tl[0], tolN: tl[1]})
 		}
 		jobs = append(jobs, job{name: n, starts: 1, kind: "nut"})
+		// the generated parts against each other: obj.Bolt vs obj.Nut, both head styles
+		jobs = append(jobs, job{name: n, starts: 1, kind: "bolt-nut"}, job{name: n, starts: 1, kind: "bolt-nut", tolB: 0.05, tolN: 0.05})
 	}
 	var pts int64
 	states += c.ParFor(len(jobs), func(i int) {
@@ -207,6 +209,57 @@ func main() {
 				}
 			}
 			atomic.AddInt64(&pts, n*6)
+		case "bolt-nut":
+			style := "hex"
+			if j.tolB > 0 {
+				style = "knurl"
+			}
+			nh := t.HexHeight()
+			threadLength := nh + 6*p
+			bolt, err := obj.Bolt(&obj.BoltParms{Thread: j.name, Style: style, Tolerance: j.tolB * p, TotalLength: threadLength, ShankLength: 0})
+			if err != nil {
+				c.Violation("obj.Bolt|error", fmt.Sprintf("%s: %v", j.name, err), desc)
+				return
+			}
+			nut, err := obj.Nut(&obj.NutParms{Thread: j.name, Style: style, Tolerance: j.tolN * p})
+			if err != nil {
+				c.Violation("obj.Nut|error", fmt.Sprintf("%s: %v", j.name, err), desc)
+				return
+			}
+			// the nut sits on the middle of the bolt's threaded part (bolt thread: from the shank at hh/2
+			// upward, its screw centred at hh/2 + threadLength/2), where both screws have the same phase
+			z0 := nh/2 + threadLength/2
+			zmax := math.Min(0.8*nh/2, threadLength/2-p)
+			tol := 1e-9 * (r + p)
+			cls := "untapered"
+			if t.Taper != 0 {
+				cls = "tapered"
+			}
+			nz := int(zmax / p * 48)
+			if nz < 8 {
+				nz = 8
+			}
+			var n int64
+			for ir := 0; ir <= 32; ir++ {
+				rr := r - 1.2*h + (1.6*h)*float64(ir)/32
+				if rr <= 0 {
+					continue
+				}
+				for ip := 0; ip < 8; ip++ {
+					ph := 2 * math.Pi * (float64(ip) + 0.21) / 8
+					for iz := -nz; iz <= nz; iz++ {
+						z := zmax * float64(iz) / float64(nz)
+						q := cyl(rr, ph, z)
+						b, m := bolt.Evaluate(v3.Vec{X: q.X, Y: q.Y, Z: q.Z + z0}), nut.Evaluate(q)
+						n++
+						if b < -tol && m < -tol {
+							c.Violation(fmt.Sprintf("mating|bolt-nut|bolt-material-inside-nut-material|%s", cls), fmt.Sprintf("obj.Bolt(%s, %s, tolerance %gp) vs obj.Nut(tolerance %gp) placed on the middle of its thread: at r=%g phi=%g z=%g the bolt is %g inside and the nut %g inside", j.name, style, j.tolB, j.tolN, rr, ph, z, -b, -m), desc)
+							return
+						}
+					}
+				}
+			}
+			atomic.AddInt64(&pts, n*2)
 		case "mate", "nut":
 			ext, err1 := sdf.ISOThread(r-j.tolB*p, p, true)
 			if err1 != nil {
